@@ -1,5 +1,5 @@
 Require Import Coq.Strings.String.
-From Verif Require Import Base.Prim Cbor.Codec Run.Wire Suit.Py Suit.Ty Suit.Interp gen.GenTypes.
+From Verif Require Import Base.Prim Cbor.Codec Run.Wire Suit.Py Suit.Ty Suit.Interp Suit.SpecEnc Suit.SpecTypes gen.GenTypes.
 
 (* External functions are answered from a table sent with the request: [[kind, [arg...], result]...]; a missing
    entry is reported as `Need kind args` and the harness re-sends the request with the value added.
@@ -40,6 +40,11 @@ Section WithTable.
   Definition m_from_cbor := from_cbor types o_json_dumps.
   Definition m_to_obj := to_obj types.
   Definition m_create := create types hnames o_hash o_uuid5 o_fs o_json_loads o_json_dumps severable_ids steps_prepare steps_processed steps_digest_ext.
+  (* specification-side encoder (C02); delegated classes go through the object model *)
+  Definition m_special (t : ty) (d : cbor) : res cbor :=
+    let* v := m_from_obj fuel0 t d in let* b := m_to_cbor fuel0 t v in dec b.
+  (* the specification encoder walks the PINNED grammar (Suit/SpecTypes.v), never the regenerated tables *)
+  Definition m_spec := spec_item spec_types o_json_loads m_special.
 End WithTable.
 
 Definition files_of (c : cbor) : option (list (bytes * bytes)) := as_list_of (as_pair as_bytes as_bytes) c.
@@ -87,6 +92,14 @@ Definition run (name : bytes) (args : list cbor) : option cbor :=
         match pyn d, files_of fl, parse_otable ot with
         | Ok d', Some fl', Some ot' =>
             Some (reply c_obj (let* v := m_from_obj ot' fl' fuel0 (TRef cls) d' in m_to_obj fuel0 (TRef cls) v))
+        | _, _, _ => None end
+    | _ => None end
+  (* "spec" class description files oracle : the item the specification assigns to the description, serialised *)
+  else if is name "spec" then
+    match args with
+    | [CText cls; d; fl; ot] =>
+        match pyn d, files_of fl, parse_otable ot with
+        | Ok d', Some fl', Some ot' => Some (reply c_bytes (let* c := m_spec ot' fl' fuel0 (TRef cls) d' in Ok (ser c)))
         | _, _, _ => None end
     | _ => None end
   else None.
